@@ -5,6 +5,7 @@ import PsutilModel.Model.C17Gen
 import PsutilModel.Spec.C17
 import PsutilModel.Spec.C17Ext
 import PsutilModel.Spec.C17Py
+import PsutilModel.Spec.C17R3
 open Lean Psutil Psutil.Proto Psutil.C17
 
 def jVal : Val → Json
@@ -292,6 +293,38 @@ def handle (_ : Unit) (j : Json) : R (Unit × Json) := do
     let raw := (ifRows ncfg mcfg es).filterMap rowOfVals
     let sraw := (Spec.ifRows (fun d => if d.isEmpty then none else some (Spec.macText d)) es).filterMap rowOfVals
     return ((), jObj [("model", jAddrDict (netIfAddrs wcfg raw)), ("spec", jAddrDict (Spec.netIfAddrs sraw))])
+  else if op == "ifaddrs_fail" then
+    let e ← natF j "err"
+    let st ← boolF j "stores_null"
+    let jn : NifOut → Json := fun o => match o with
+      | .rows r => jObj [("kind", "rows"), ("rows", jRows r)]
+      | .osError c => jObj [("kind", "exc"), ("exc", "OSError"), ("errno", jInt c)]
+      | .ub => jObj [("kind", "ub")]
+    return ((), jObj [("model", jn (netIfAddrsC nfail ncfg mcfg (.fail e st))), ("spec", jn (Spec.nifOutcome (.fail e st)))])
+  else if op == "parts_e2e" then
+    let all ← boolF j "all"
+    let text ← bytesF j "fs"
+    let ls ← listF asBytes j "lines"
+    let lastTerm ← boolF j "last_term"
+    let root ← optF asBytes j "root"
+    let m := match diskPartitionsPy pcfg dcfg all text ls lastTerm root with
+      | .rows r => jObj [("kind", "ok"), ("rows", jList jMnt r)]
+      | .indexError => jObj [("kind", "exc"), ("exc", "IndexError")]
+      | .valueError => jObj [("kind", "exc"), ("exc", "ValueError")]
+    return ((), jObj [("model", m), ("spec", Json.null)])
+  else if op == "errmsg" then
+    let fn ← strF j "fn"
+    let args ← listF asStr j "args"
+    match Gen.C17.errMsgHelpers.find? (fun h => h.1 == fn) with
+    | none => .error s!"no such helper {fn}"
+    | some h =>
+      match parseFmt h.2.2.1.toList with
+      | none => return ((), jObj [("model", jObj [("kind", "unknown-format")]), ("spec", Json.null)])
+      | some ps =>
+        let out := renderPieces ps (args.map String.toList)
+        return ((), jObj [("model", jObj [("text", Json.str (String.ofList out)), ("fits", Json.bool (out.length + 1 ≤ h.2.1)),
+                                            ("size", jInt h.2.1), ("directives", jInt (countStr ps))]),
+                          ("spec", Json.null)])
   else .error s!"unknown op {op}"
 
 def main : IO Unit := Proto.run () (total handle)
